@@ -89,7 +89,12 @@ func migrateInvoiceTaxCombo(tc *tax.Combo) {
 		for _, m := range taxRateVATExemptMigrationMap {
 			if m.Key == tc.Rate {
 				tc.Rate = tax.RateExempt
-				tc.Ext = m.Ext
+				// copy: the combo's extensions are modified below and by the
+				// normalizers, and must not share memory with the table
+				tc.Ext = make(tax.Extensions, len(m.Ext))
+				for k, v := range m.Ext {
+					tc.Ext[k] = v
+				}
 				break
 			}
 		}
